@@ -97,6 +97,9 @@ func (a *A) Foo(x int) int { a.L.Add("A.Foo", x); return 100 + x }
 func (a *A) Bar(x int) int { a.L.Add("A.Bar", x); return 200 + x }
 func (a *A) FooBar() int   { a.L.Add("A.FooBar"); return 300 }
 
+// Three has several positional params of different types: a mismatch can sit at any position.
+func (a *A) Three(s string, n int, b bool) int { a.L.Add("A.Three", s, n, b); return 400 + n }
+
 type B struct{ L *Log }
 
 func (b *B) Foo(x int) int { b.L.Add("B.Foo", x); return 400 + x }
@@ -138,6 +141,7 @@ var AMethods = []MethodDesc{
 	{Name: "Bar", Tag: "A.Bar", PTypes: []string{"int"}, Out: "val"},
 	{Name: "Foo", Tag: "A.Foo", PTypes: []string{"int"}, Out: "val"},
 	{Name: "FooBar", Tag: "A.FooBar", PTypes: []string{}, Out: "val"},
+	{Name: "Three", Tag: "A.Three", PTypes: []string{"string", "int", "bool"}, Out: "val"},
 }
 
 var BMethods = []MethodDesc{
